@@ -374,6 +374,8 @@ def run(ctx):
             rep.add('FEAT-DIFF/same-reachable-set', f"[{base} vs {other}]", not bad, cfg=other,
                     detail=f"functions on search paths present in only one build: {bad[:8]}" if bad else f"{len(only_paths)} allowed one-sided functions")
         rep.floor(f'feat-diff-compared[{"+".join(g)}]', n_cmp, 300)
+    from . import lanelaws
+    lanelaws.emit(rep, ctx, cfgs, PID)
     rep.extra['configs'] = cfgs
     return rep
 
